@@ -243,38 +243,15 @@ func (a *BigInt) M__truediv__(other Object) (Object, error) {
 	if b, ok := ConvertToBigInt(other); ok {
 		return a.trueDiv(b)
 	}
-	b, err := MakeFloat(other)
-	if err != nil {
-		return nil, err
-	}
-	fa, err := a.Float()
-	if err != nil {
-		return nil, err
-	}
-	fb := b.(Float)
-	if fb == 0 {
-		return nil, divisionByZero
-	}
-	return Float(fa / fb), nil
+	// Float and Complex do it in their reflected method
+	return NotImplemented, nil
 }
 
 func (a *BigInt) M__rtruediv__(other Object) (Object, error) {
 	if b, ok := ConvertToBigInt(other); ok {
 		return b.trueDiv(a)
 	}
-	b, err := MakeFloat(other)
-	if err != nil {
-		return nil, err
-	}
-	fa, err := a.Float()
-	if err != nil {
-		return nil, err
-	}
-	fb := b.(Float)
-	if fa == 0 {
-		return nil, divisionByZero
-	}
-	return Float(fb / fa), nil
+	return NotImplemented, nil
 }
 
 func (a *BigInt) M__itruediv__(other Object) (Object, error) {
